@@ -48,6 +48,9 @@ func enumLarge(yield func(LargeCase) bool) {
 		{"big:build", "big:build", "big:validate", "small:build"},
 		{"big:validate", "small:validate", "big:build", "big:replicate"},
 	}
+	if !vh.Thorough() {
+		orders = orders[1:3]
+	}
 	for _, ord := range orders {
 		if !yield(LargeCase{Big: big, Small: small, Order: ord}) {
 			return
